@@ -372,8 +372,9 @@ def supported_hyps(kind, brick):
     return HYPS_NOPS
 
 
-def random_description(rng, kind, idx, tangent_only=False):
-    """one program description; `rng` is a random.Random (sampling of a finite option space + constants)"""
+def random_description(rng, kind, idx, tangent_only=False, force_algo=None):
+    """one program description; `rng` is a random.Random (sampling of a finite option space + constants);
+    `force_algo` overrides the drawn @Algorithm of the Implicit kinds (the draws themselves are unchanged)"""
     p = {"kind": kind, "name": "V%s%d" % ("".join(w[0].upper() + w[1:3] for w in kind.split("_")), idx)}
     brick = rng.random() < 0.5
     algo = "NewtonRaphson"
@@ -383,6 +384,8 @@ def random_description(rng, kind, idx, tangent_only=False):
             # C42 differentiates the returned operator: keep the solvers that carry an exact or numerical jacobian
             algos = ["NewtonRaphson", "NewtonRaphson_NumericalJacobian", "PowellDogLeg_NewtonRaphson", "LevenbergMarquardt"]
         algo = algos[idx % len(algos)] if rng.random() < 0.7 else rng.choice(algos)
+        if force_algo is not None:
+            algo = force_algo
         p["algo"] = algo
         p["theta"] = rng.choice([1.0, 1.0, 0.5, round(rng.uniform(0.3, 1.0), 3)])
         p["eps"] = rng.choice([1e-14, 1e-13, 1e-12, 1e-11])
